@@ -4,6 +4,7 @@
 extern crate anoncreds;
 
 mod c13;
+mod c16;
 mod out;
 mod rng;
 mod sx;
@@ -22,6 +23,7 @@ fn main() {
     std::panic::set_hook(Box::new(|_| {}));
     match prop {
         "C13" => c13::run(tier, seed, outdir),
+        "C16" => c16::run(tier, seed, outdir),
         _ => {
             eprintln!("unknown property {}", prop);
             std::process::exit(2);
